@@ -359,6 +359,10 @@ func ruleCIDOnSend(c *Ctx, r *Report) {
 							if call, isCall := iff.Cond.(*ssa.Call); isCall && strings.HasSuffix(calleeName(&call.Call), "Version).Equal") {
 								v = phi.Edges[1-i]
 							}
+							// "protected && negotiated": the other operand is the packet's own ShouldEncrypt
+							if iff.Cond == se && pred.Succs[1] == phi.Block() {
+								v = phi.Edges[1-i]
+							}
 						}
 					}
 				}
@@ -383,6 +387,44 @@ func ruleCIDOnSend(c *Ctx, r *Report) {
 		r.Check(ok, rule, key, c.ipos(p.al), "ShouldWrapCID follows the negotiated connection-ID state", "a protected DTLS 1.2 packet does not take ShouldWrapCID from the negotiated state: the peer's connection ID is missing on it")
 	}
 	r.Floor(rule, n, 6)
+	// the tls12_cid format is for protected records: a packet is never CID-wrapped without being
+	// encrypted (a plaintext record of content type 25 is discarded by every receiver, so an alert
+	// sent that way during the handshake is never read)
+	nw := 0
+	for _, p := range c.packetLiterals() {
+		v, has := p.fields["ShouldWrapCID"]
+		if !has {
+			continue
+		}
+		if k, isC := constBool(v); isC && !k {
+			continue
+		}
+		nw++
+		se := p.fields["ShouldEncrypt"]
+		good := false
+		if se != nil {
+			if k, isC := constBool(se); isC && k {
+				good = true
+			}
+			// wrap = encrypt && ...: false on the edge where encrypt is false
+			if phi, isPhi := v.(*ssa.Phi); isPhi && !good {
+				for i, e := range phi.Edges {
+					if k, isC := constBool(e); isC && !k {
+						pred := phi.Block().Preds[i]
+						if iff, isIf := pred.Instrs[len(pred.Instrs)-1].(*ssa.If); isIf && iff.Cond == se && pred.Succs[1] == phi.Block() {
+							good = true
+						}
+					}
+				}
+			}
+			if v == se {
+				good = true
+			}
+		}
+		key := short(p.fn) + ":" + strings.TrimPrefix(p.content, "pkg/protocol/")
+		r.Check(good, rule, key+":wrapped-implies-encrypted", c.ipos(p.al), "a packet is CID-wrapped only if it is encrypted", "a packet can be CID-wrapped (content type tls12_cid) while it is not encrypted: during the handshake an alert goes out as a plaintext record of type 25, which every receiver discards - the fatal alert is never read and the peer waits until its own timeout")
+	}
+	r.Floor(rule+":wrapped", nw, 5)
 	// the CID written is the peer's
 	for _, name := range []string{"(*dtls.Conn).processPacket", "(*dtls.Conn).processHandshakePacket"} {
 		fn := c.need(r, rule, name)
